@@ -186,7 +186,7 @@ class MiniShard(CMCReadWrite):
                 << self.shard_spec.preshift_bits
             ) & cmc
 
-        chunk_to_store = self.shard_spec.data_encoder(buf)
+        chunk_to_store = bytes(self.shard_spec.data_encoder(buf))
         if self.can_be_appended(cmc):
             self.append(chunk_to_store, cmc)
             self.flush_buffer()
